@@ -241,7 +241,8 @@ Section BT.
           | None => BSDone (BError Oob)
           | Some gd =>
               let gd' := if fwd then mkGD (gd_start gd) (Some pos) else mkGD (Some pos) (gd_end gd) in
-              BSNext (mkBC (MRun (S ip) pos) loops (set_nth g gd' groups) bts)
+              BSNext (mkBC (MRun (S ip) pos) loops (set_nth g gd' groups)
+                           (BSetCaptureGroup g gd :: bts))
           end
       | ResetCG g =>
           match nth_error groups g with
@@ -265,8 +266,8 @@ Section BT.
           match nth_error loops lid with
           | None => BSDone (BError Oob)                     (* self.s.loops.mat(..): unchecked *)
           | Some ld =>
-              bt_run_loop (set_nth lid (mkLD 0 (ld_entry ld)) loops) groups bts
-                          lid min max greedy exit pos ip
+              bt_run_loop (set_nth lid (mkLD 0 (ld_entry ld)) loops) groups
+                          (BSetLoopData lid ld :: bts) lid min max greedy exit pos ip
           end
       | LoopAgain begin =>
           match nth_error (p_insns prog) begin with
